@@ -1349,6 +1349,92 @@ impl CodegenContext {
     }
 }
 
+/// Verification seam: pass observer (logical clock of the pass loop), only built with `--cfg mos_verif`
+#[cfg(mos_verif)]
+pub mod verif_hooks {
+    use super::*;
+    use std::cell::RefCell;
+    use std::collections::hash_map::DefaultHasher;
+    use std::hash::{Hash, Hasher};
+
+    /// Called after every completed pass with (pass index, digest of the loop state). Returns true to stop.
+    pub type Observer = Box<dyn FnMut(usize, u64) -> bool>;
+
+    thread_local! {
+        static OBSERVER: RefCell<Option<Observer>> = RefCell::new(None);
+    }
+
+    pub fn set_observer(o: Option<Observer>) {
+        OBSERVER.with(|c| *c.borrow_mut() = o);
+    }
+
+    fn h<T: Hash>(t: &T) -> u64 {
+        // DefaultHasher::new() uses fixed keys, so digests do not depend on the hash seed
+        let mut s = DefaultHasher::new();
+        t.hash(&mut s);
+        s.finish()
+    }
+
+    /// Order-independent digest of everything the loop's bail-out rules and the next pass depend on
+    pub(super) fn after_pass(
+        ctx: &CodegenContext,
+        errors: &Diagnostics,
+        prev_errors: &Diagnostics,
+        prev_undefined: &HashSet<UndefinedSymbol>,
+    ) -> bool {
+        let active = OBSERVER.with(|c| c.borrow().is_some());
+        if !active {
+            return false;
+        }
+        let mut d: u64 = 0;
+        for (path, (_, sym)) in ctx.symbols.all() {
+            let item = format!(
+                "{}|{:?}|{:?}|{:?}|{:?}",
+                path, sym.data, sym.ty, sym.segment, sym.span
+            );
+            d = d.wrapping_add(h(&item));
+        }
+        for (name, seg) in &ctx.segments {
+            let o = seg.options();
+            let item = format!(
+                "seg|{}|{:?}|{}|{}|{}|{:?}",
+                name,
+                o.bank,
+                o.initial_pc.as_i64(),
+                o.write,
+                o.target_address.as_i64(),
+                seg.range()
+            );
+            d = d.wrapping_add(h(&item));
+        }
+        for (name, bank) in &ctx.banks {
+            let item = format!(
+                "bank|{}|{}|{:?}|{:?}|{}|{:?}",
+                name, bank.name, bank.size, bank.fill, bank.create_segment, bank.filename
+            );
+            d = d.wrapping_add(h(&item));
+        }
+        d = d.wrapping_add(h(&format!("cur|{:?}", ctx.current_segment)));
+        for u in &ctx.undefined {
+            d = d.wrapping_add(h(&format!("u|{}|{:?}|{:?}", u.id, u.span, u.scope_nx)));
+        }
+        for u in prev_undefined {
+            d = d.wrapping_add(h(&format!("pu|{}|{:?}|{:?}", u.id, u.span, u.scope_nx)));
+        }
+        for e in errors.iter() {
+            d = d.wrapping_add(h(&format!("e|{:?}", e)));
+        }
+        for e in prev_errors.iter() {
+            d = d.wrapping_add(h(&format!("pe|{:?}", e)));
+        }
+        let pass = ctx.pass_idx;
+        OBSERVER.with(|c| match c.borrow_mut().as_mut() {
+            Some(o) => o(pass, d),
+            None => false,
+        })
+    }
+}
+
 pub fn codegen(
     ast: Arc<ParseTree>,
     options: CodegenOptions,
@@ -1382,6 +1468,12 @@ pub fn codegen(
             }
         }
         ctx.after_pass().expect("Could not finalize pass");
+
+        // Verification seam: report the completed pass to an observer, which may stop the loop
+        #[cfg(mos_verif)]
+        if verif_hooks::after_pass(&ctx, &errors, &prev_errors, &prev_undefined) {
+            return (Some(ctx), errors);
+        }
 
         // Are there no segments yet? Then create a default one.
         if ctx.segments.is_empty() {
